@@ -66,6 +66,26 @@ def effective_flags(spec):
             for k in DOCUMENTED_DEFAULTS}
 
 
+def expected_release(identity, sp_view):
+    """What an IdP that knows the SP through `sp_view` releases of `identity` (documented: only what the SP's
+    metadata asks for, when it asks for anything; a missing required attribute refuses the answer).
+    -> (released identity | None when undecided, names asked for (lower case) | None, refusal expected)"""
+    req, opt = list(sp_view.get("req_attrs") or []), list(sp_view.get("opt_attrs") or [])
+    if not req and not opt:
+        return identity, None, False
+    asked_for = set(n.lower() for n in req + opt)
+    released, undecided, refuse = {}, False, False
+    for n in req + opt:
+        cands = [k for k in identity if k.lower() == n.lower()]
+        if len(cands) > 1:
+            undecided = True        # several spellings of one name: which one is picked is not documented
+        elif cands:
+            released[cands[0]] = identity[cands[0]]
+        elif n in req:
+            refuse = True
+    return (None if undecided else released), asked_for, refuse
+
+
 def entity_of(spec):
     return idp_entity(spec["name"]) if spec["kind"] == "idp" else sp_entity(spec)
 
@@ -130,6 +150,11 @@ def base_config(spec):
                           ("want_assertions_or_response_signed", "waors"), ("allow_unsolicited", "allow_unsolicited")):
             if spec.get(key_, False) is not None:
                 svc[opt] = bool(spec.get(key_, False))
+        # what the SP asks for in its metadata (RequestedAttribute): the IdP releases nothing else to it
+        if spec.get("req_attrs"):
+            svc["required_attributes"] = list(spec["req_attrs"])
+        if spec.get("opt_attrs"):
+            svc["optional_attributes"] = list(spec["opt_attrs"])
         if spec.get("acs2"):
             svc["endpoints"]["assertion_consumer_service"].append((ep["acs_post2"], BINDING_HTTP_POST))
         if spec.get("dest_regex"):
